@@ -336,6 +336,20 @@ pub fn run_cli(c: &CliCase) -> RunReport {
         Ok(v) => v,
         Err(p) => viol("tool-panic", panic_message(p)),
     };
+    // a subprocess of the built binary with -t N runs on real threads: the oracle (exact round trip) does not
+    // depend on the schedule, but the run cannot be replayed exactly
+    let real_threads = st.counters.contains_key("via_multicall_binary(uncontrolled)")
+        && ((c.via_binary && c.read_threads > 1) || c.nthreads > 1);
+    let verdict = match verdict {
+        Verdict::Violation { class, detail } if real_threads => Verdict::Violation {
+            class: format!("{}-uncontrolled", class),
+            detail,
+        },
+        v => v,
+    };
+    if real_threads {
+        st.uncontrolled = true;
+    }
     *st.counters.entry(format!("write_threads_{}", c.nthreads)).or_insert(0) += 1;
     *st.counters.entry(format!("read_threads_{}", c.read_threads)).or_insert(0) += 1;
     *st.counters.entry(format!("parallel_{}", c.parallel)).or_insert(0) += 1;
@@ -502,6 +516,11 @@ fn run_cli_inner(c: &CliCase, _st: &mut RunStats) -> Verdict {
             return Verdict::Pass;
         }
     }
+    // the multi-threaded converters hand every chromosome task a reopened reader: a seeded history of seeks and
+    // reads over a handle, its reopened copy and a copy of the copy must behave like three independent cursors
+    if let Err(m) = reopen_history_check(&big, crate::rng::hash_bytes(text.as_bytes()) ^ c.read_threads as u64) {
+        return viol("reopened-handle-not-independent", m);
+    }
     // back conversion
     let r = match c.kind {
         Kind::Wig if c.via_binary && binary.is_some() => run_binary(&read_argv(c, "bigwigtobedgraph", &big, &back), None),
@@ -592,6 +611,55 @@ fn run_cli_inner(c: &CliCase, _st: &mut RunStats) -> Verdict {
         }
     }
     Verdict::Pass
+}
+
+/// `Reopen` contract of the file type the tools read through ("independent with respect to seeks and reads from
+/// the original object"), as a deterministic history: interleaved seeks and reads on three handles against three
+/// model cursors.
+fn reopen_history_check(path: &Path, seed: u64) -> Result<(), String> {
+    use bigtools::utils::reopen::{Reopen, ReopenableFile};
+    use std::io::{Read, Seek, SeekFrom};
+    let content = std::fs::read(path).map_err(|e| format!("HARNESS: cannot read {}: {}", path.display(), e))?;
+    if content.is_empty() {
+        return Ok(());
+    }
+    let open = || -> std::io::Result<ReopenableFile> {
+        Ok(ReopenableFile {
+            path: path.to_path_buf(),
+            file: std::fs::File::open(path)?,
+        })
+    };
+    let mut rng = Rng::new(seed);
+    let mut h0 = open().map_err(|e| format!("open: {}", e))?;
+    // the original is somewhere in the file when the copies are made
+    let first = rng.below(content.len() as u64);
+    h0.seek(SeekFrom::Start(first)).map_err(|e| format!("seek: {}", e))?;
+    let h1 = h0.reopen().map_err(|e| format!("reopen: {}", e))?;
+    let h2 = h1.reopen().map_err(|e| format!("reopen: {}", e))?;
+    let mut handles = [h0, h1, h2];
+    let mut model = [first, 0u64, 0u64];
+    for step in 0..(6 + rng.below(10)) {
+        let k = rng.below(3) as usize;
+        if rng.chance(1, 2) {
+            let to = rng.below(content.len() as u64);
+            handles[k].seek(SeekFrom::Start(to)).map_err(|e| format!("seek: {}", e))?;
+            model[k] = to;
+        } else {
+            let want = (1 + rng.below(24)) as usize;
+            let mut buf = vec![0u8; want];
+            let n = handles[k].read(&mut buf).map_err(|e| format!("read: {}", e))?;
+            let at = model[k] as usize;
+            let avail = content.len().saturating_sub(at).min(want);
+            if n > avail || (n == 0 && avail > 0) || buf[..n] != content[at..at + n] {
+                return Err(format!(
+                    "step {}: handle {} (0 = original, 1 = reopened, 2 = reopened copy) read {} bytes that are not the file's bytes at its own position {} (positions by the model: {:?})",
+                    step, k, n, at, model
+                ));
+            }
+            model[k] += n as u64;
+        }
+    }
+    Ok(())
 }
 
 pub fn shrink_cli(c: &CliCase) -> Vec<CliCase> {
